@@ -6,7 +6,7 @@ EXTENDS MC_GinCore, TLCExt, Json, IOUtils
 
 ASSUME TLCSet(1, 0)   \* id of the last exported behaviour
 
-SimDepth == 12
+SimDepth == IF "SIM_DEPTH" \in DOMAIN IOEnv THEN atoi(IOEnv.SIM_DEPTH) ELSE 12
 
 ExportConstraint ==
   \* exactly one export per simulated behaviour (stats.traces is its ordinal)
